@@ -100,6 +100,8 @@ func (f fakeTime) AddTimeSample(string, time.Time) {}
 func (f fakeTime) Offset() time.Duration           { return 0 }
 
 type world struct {
+	flip  *flipScript // script "flipback"
+	junk  *junkScript // script "cpjunk"
 	rng    *rand.Rand
 	params chaincfg.Params
 	cc     cctx
@@ -1058,6 +1060,159 @@ func (w *world) buildStale(t *tr.W) *stScript {
 	return sc
 }
 
+
+// ------------------------------------------------ branch flips (A adopted, B heavier, A extended heavier again, ...)
+
+// flipScript: a fork point on the main chain and a sequence of branch tips, each strictly heavier
+// (from the fork point on) than the one before it and each an extension of a branch that was
+// adopted - and displaced - earlier in the sequence (or a new branch: three-way).
+type flipScript struct {
+	f     int     // fork point height on main
+	steps []*node // successive branch tips to reveal; steps[0] = tip of main (branch A)
+	kinds []string
+}
+
+func workAbove(fp, tip *node) *big.Int {
+	sum := new(big.Int)
+	for n := tip; n != fp && n != nil; n = n.parent {
+		sum.Add(sum, n.work)
+	}
+	return sum
+}
+
+func (w *world) buildFlip(t *tr.W) {
+	rng := w.rng
+	gen := w.nodes[0]
+	T := 4 + rng.Intn(6)
+	w.main = append([]*node{gen}, w.extend(gen, T, rng.Intn(4))...)
+	f := 1 + rng.Intn(T-2)
+	fp := w.main[f]
+	if rng.Intn(3) == 0 { // a checkpoint at or below the fork point: the flips stay above the floor
+		h := 1 + rng.Intn(f)
+		w.params.Checkpoints = append(w.params.Checkpoints, chaincfg.Checkpoint{Height: int32(h), Hash: &w.main[h].hash})
+		t.Hit("checkpoints.1")
+	} else {
+		t.Hit("checkpoints.0")
+	}
+	sc := &flipScript{f: f, steps: []*node{w.main[T]}, kinds: []string{"A"}}
+	// grow `from` (a branch tip, or the fork point for a new branch) until it outweighs `cur`
+	heavier := func(from, cur *node) *node {
+		style := rng.Intn(4)
+		n := from
+		for i := 0; i < 40; i++ {
+			n = w.extend(n, 1, style)[0]
+			if workAbove(fp, n).Cmp(workAbove(fp, cur)) > 0 && rng.Intn(3) > 0 {
+				return n
+			}
+		}
+		return n
+	}
+	tips := []*node{w.main[T]} // the branch tips so far (one per branch)
+	cur := w.main[T]
+	nsteps := 2 + rng.Intn(4)
+	for i := 0; i < nsteps; i++ {
+		var nt *node
+		kind := ""
+		switch {
+		case len(tips) == 1 || len(tips) < 3 && rng.Intn(3) == 0:
+			// a branch never seen before, from the fork point or from inside an earlier branch
+			from := fp
+			if len(tips) > 1 && rng.Intn(2) == 0 {
+				b := pathTo(fp, tips[rng.Intn(len(tips))])
+				from = b[rng.Intn(len(b))]
+				if from == cur {
+					from = fp
+				}
+			}
+			nt = heavier(from, cur)
+			tips = append(tips, nt)
+			kind = "new-branch"
+		default:
+			// back to a branch that was adopted before, extended so that it is the heavier one again
+			var cands []int
+			for j, tp := range tips {
+				on := false
+				for n := cur; n != nil; n = n.parent {
+					on = on || n == tp
+				}
+				if !on {
+					cands = append(cands, j)
+				}
+			}
+			if len(cands) == 0 {
+				continue
+			}
+			j := cands[rng.Intn(len(cands))]
+			nt = heavier(tips[j], cur)
+			tips[j] = nt
+			kind = "flip-back"
+		}
+		sc.steps = append(sc.steps, nt)
+		sc.kinds = append(sc.kinds, kind)
+		cur = nt
+	}
+	var maxTs int64
+	for _, n := range w.nodes {
+		if ts := n.hdr.Timestamp.Unix(); ts > maxTs {
+			maxTs = ts
+		}
+	}
+	w.ts.now = time.Unix(maxTs+4*3600, 0)
+	t.Hit("time.all-fresh")
+	w.flip = sc
+	w.judge()
+}
+
+// ------------------------------------------------ messages that end in the next checkpoint's real header
+
+// junkScript: a main chain with a checkpoint some way above the height the client is synced to,
+// and headers that connect to nothing the message has in front of them.
+type junkScript struct {
+	t0, cp int     // synced height before the junk message, checkpoint height
+	strays []*node // headers to break a message with: forks off stored heights (parent known) and
+	// children of headers the client has never seen (parent unknown)
+}
+
+func (w *world) buildJunk(t *tr.W) {
+	rng := w.rng
+	gen := w.nodes[0]
+	T := 8 + rng.Intn(8)
+	w.main = append([]*node{gen}, w.extend(gen, T, rng.Intn(4))...)
+	sc := &junkScript{}
+	sc.cp = 4 + rng.Intn(T-4)        // 4..T-1
+	sc.t0 = rng.Intn(sc.cp - 2)      // 0..cp-3: the message t0+1..cp has at least 3 headers
+	if sc.t0 > 1 && rng.Intn(2) == 0 { // an earlier checkpoint that has been passed
+		h := 1 + rng.Intn(sc.t0)
+		w.params.Checkpoints = append(w.params.Checkpoints, chaincfg.Checkpoint{Height: int32(h), Hash: &w.main[h].hash})
+	}
+	w.params.Checkpoints = append(w.params.Checkpoints, chaincfg.Checkpoint{Height: int32(sc.cp), Hash: &w.main[sc.cp].hash})
+	t.Hit(fmt.Sprintf("checkpoints.%d", len(w.params.Checkpoints)))
+	// strays: forks off stored heights (known parent, light and heavy), forks off heights not yet synced
+	if sc.t0 > 0 {
+		fk := w.extend(w.main[rng.Intn(sc.t0+1)], 1+rng.Intn(3), rng.Intn(4))
+		sc.strays = append(sc.strays, fk[0])
+	}
+	fk := w.extend(w.main[sc.t0], 2, rng.Intn(4)) // a sibling of the first header of the message, and its child
+	sc.strays = append(sc.strays, fk[0], fk[1])
+	fk = w.extend(w.main[sc.t0+1+rng.Intn(sc.cp-sc.t0-1)], 2, rng.Intn(4))
+	sc.strays = append(sc.strays, fk[1]) // parent never seen
+	var maxTs int64
+	for _, n := range w.nodes {
+		if ts := n.hdr.Timestamp.Unix(); ts > maxTs {
+			maxTs = ts
+		}
+	}
+	if rng.Intn(2) == 0 {
+		w.ts.now = time.Unix(maxTs+4*3600, 0)
+		t.Hit("time.all-fresh")
+	} else { // the client is not current while it is heading for the checkpoint
+		w.ts.now = time.Unix(maxTs+48*3600, 0)
+		t.Hit("time.stale-prefix")
+	}
+	w.junk = sc
+	w.judge()
+}
+
 func allOk(n *node) bool {
 	for ; n != nil; n = n.parent {
 		if n.kind != "ok" {
@@ -1595,6 +1750,9 @@ func runCase(t *tr.W, rng *rand.Rand, nev int, script string) {
 	if script == "restale" {
 		ps = []int{0, 4, 4, 1, 2, 3, 5}[rng.Intn(7)]
 	}
+	if script == "flipback" || script == "cpjunk" {
+		ps = rng.Intn(len(paramSets) - 1)
+	}
 	w := newWorld(rng, ps)
 	var nearTie []*ntRound
 	var stale *stScript
@@ -1605,6 +1763,10 @@ func runCase(t *tr.W, rng *rand.Rand, nev int, script string) {
 		w.buildLong(t)
 	case "neartie":
 		nearTie = w.buildNearTie(t)
+	case "flipback":
+		w.buildFlip(t)
+	case "cpjunk":
+		w.buildJunk(t)
 	default:
 		w.build(t)
 	}
@@ -1999,6 +2161,137 @@ func runCase(t *tr.W, rng *rand.Rand, nev int, script string) {
 				break
 			}
 		}
+		return
+	}
+	if script == "flipback" {
+		// the sync peer gives us branch A; then, step by step, a heavier competing branch, the first
+		// branch again (extended so that it is the heavier one), a third one ... - each must be
+		// adopted in full, and after each one every hash that was ever stored is asked again
+		t.Hit("script.flip-back")
+		sc := w.flip
+		fp := w.main[sc.f]
+		if rng.Intn(2) == 0 {
+			peerheight(1, len(w.main)-1)
+		}
+		newpeer(1)
+		headers(1, w.main[1:], "main")
+		if rng.Intn(2) == 0 {
+			newpeer(2)
+		}
+		for i := 1; i < len(sc.steps) && !s.stuck; i++ {
+			t.Hit("flip.step." + sc.kinds[i])
+			p := 1
+			if sp := s.peerID(s.bm.Digest().SyncPeer); sp != 0 {
+				p = sp
+			}
+			b := pathTo(fp, sc.steps[i])
+			switch rng.Intn(4) {
+			case 0: // re-offer from the first header above genesis: the stored prefix is "known"
+				b = pathTo(w.nodes[0], sc.steps[i])
+				t.Hit("flip.offer.from-height-1")
+			case 1: // with the fork point itself in front
+				b = append([]*node{fp}, b...)
+				t.Hit("flip.offer.from-fork-point")
+			default:
+				t.Hit("flip.offer.from-first-new")
+			}
+			headers(p, b, "flip-"+sc.kinds[i])
+			switch rng.Intn(5) {
+			case 0:
+				cfwrite()
+			case 1:
+				backlog()
+			}
+		}
+		return
+	}
+	if script == "cpjunk" {
+		// synced to t0 below the next checkpoint; a message [valid child of the tip, ..., a header
+		// that connects to nothing in front of it, ..., the REAL checkpoint header] from the sync peer
+		// or from another peer; then the honest batch up to the checkpoint from the sync peer
+		t.Hit("script.checkpoint-junk")
+		sc := w.junk
+		newpeer(1)
+		newpeer(2)
+		if sc.t0 > 0 {
+			headers(1, w.main[1:sc.t0+1], "main")
+		}
+		rounds := 1 + rng.Intn(2)
+		for r := 0; r < rounds && !s.stuck; r++ {
+			msg := append([]*node{}, w.main[sc.t0+1:sc.cp+1]...)
+			n := len(msg)
+			pos := []int{1, n / 2, n - 2, 1 + rng.Intn(n-2)}[rng.Intn(4)] // never the first, never the last
+			if pos < 1 {
+				pos = 1
+			}
+			if pos > n-2 {
+				pos = n - 2
+			}
+			how := rng.Intn(3)
+			switch how {
+			case 0: // a stray header in place of the real one
+				msg[pos] = sc.strays[rng.Intn(len(sc.strays))]
+				t.Hit("cpjunk.break.stray")
+			case 1: // a gap: the header at pos is missing
+				msg = append(msg[:pos], msg[pos+1:]...)
+				t.Hit("cpjunk.break.gap")
+			default: // two neighbours swapped
+				if pos+1 < n-1 {
+					msg[pos], msg[pos+1] = msg[pos+1], msg[pos]
+				} else {
+					msg[pos] = sc.strays[rng.Intn(len(sc.strays))]
+				}
+				t.Hit("cpjunk.break.swap")
+			}
+			switch {
+			case pos == 1:
+				t.Hit("cpjunk.pos.second")
+			case pos == n-2:
+				t.Hit("cpjunk.pos.last-but-one")
+			default:
+				t.Hit("cpjunk.pos.middle")
+			}
+			p := 2
+			if rng.Intn(3) == 0 {
+				p = 1
+				if sp := s.peerID(s.bm.Digest().SyncPeer); sp != 0 {
+					p = sp
+				}
+				t.Hit("cpjunk.from.sync-peer")
+			} else {
+				t.Hit("cpjunk.from.other-peer")
+			}
+			headers(p, msg, "junk-ending-in-checkpoint")
+			if neutrino.VerifPeerDisconnected(s.peers[p-1]) && s.active[p-1] {
+				t.Hit("ev.donepeer")
+				s.active[p-1] = false
+				rr := guard(func() { s.bm.DonePeer(s.peers[p-1]) })
+				t.Op(fmt.Sprintf("donepeer %d", p), s.dump(rr, 0, "[]"))
+				if !s.active[2] {
+					newpeer(3)
+				}
+			}
+		}
+		if s.stuck {
+			return
+		}
+		sp := s.peerID(s.bm.Digest().SyncPeer)
+		if sp == 0 {
+			sp = 3
+			if !s.active[2] {
+				newpeer(3)
+			}
+		}
+		// the honest continuation: up to the checkpoint (and beyond: the loop stops there), in one or two messages
+		tp := int(tip().height)
+		if tp < sc.cp && w.main[tp] == tip() {
+			k := tp + 1 + rng.Intn(sc.cp-tp)
+			headers(sp, w.main[tp+1:k+1], "main")
+			if k < len(w.main)-1 {
+				headers(sp, w.main[k+1:], "main")
+			}
+		}
+		backlog()
 		return
 	}
 	if script == "neartie" {
@@ -2609,6 +2902,8 @@ func Run(t *tr.W, thorough bool) {
 	}
 	rngNT := tr.Rng(7102) // the near-tie cases draw from a stream of their own
 	rngST := tr.Rng(7103)
+	rngFB := tr.Rng(7104)
+	rngCJ := tr.Rng(7105)
 	for i := 0; i < ncases; i++ {
 		runCase(t, rng, 18+rng.Intn(30), "")
 		if i == ncases/3 || i == 2*ncases/3 {
@@ -2616,6 +2911,12 @@ func Run(t *tr.W, thorough bool) {
 		}
 		if i%10 == 5 {
 			runCase(t, rngNT, 0, "neartie") // a dozen near-tie cases per quick run
+		}
+		if i%12 == 1 {
+			runCase(t, rngFB, 0, "flipback") // ten histories that flip back to a branch adopted before
+		}
+		if i%12 == 7 {
+			runCase(t, rngCJ, 0, "cpjunk") // ten messages that do not connect but end in the real next checkpoint
 		}
 		if i%5 == 3 {
 			runCase(t, rngST, 0, "restale") // and two dozen histories that re-anchor around a reorganisation
